@@ -95,6 +95,15 @@ let run (t : string list) : string =
        | Some ids ->
            let ids = Stdlib.List.sort_uniq compare (Stdlib.List.map (fun n -> Z.to_int (zt_of_n n)) ids) in
            if ids = [] then "Z -" else "Z " ^ Stdlib.String.concat "," (Stdlib.List.map string_of_int ids))
+  | ["tsite_select"; col; op; kind; h; zs] ->
+      let lit = bytes_of_hex h in
+      let sv = if kind = "i" then TimeSites.SInt (z_of_string (str_of_bytes lit)) else TimeSites.SUtf8 lit in
+      let o = op_of op in
+      (* IN is planned as FullScan: every zone of the segment *)
+      let ids = if op = "in" then Stdlib.List.map (fun z -> z.TimeSites.z_id) (zones_of zs)
+                else TimeSites.select_zones (col = "timestamp") o sv (zones_of zs) in
+      let ids = Stdlib.List.sort_uniq compare (Stdlib.List.map (fun n -> Z.to_int (zt_of_n n)) ids) in
+      if ids = [] then "Z -" else "Z " ^ Stdlib.String.concat "," (Stdlib.List.map string_of_int ids)
   | ["tsite_all"; h] ->
       let lit = bytes_of_hex h in
       let v = TimeSites.TStr lit in
